@@ -7,7 +7,7 @@ class C05(LogCheck):
     vfiles = VFILES + ["Properties/Properties_C05.v"]
     ocaml = OCAML
     corpus = "C05.txt"
-    level_text = ("Twenty-two theorems proved in Coq for ALL compile-time minima, thresholds, filter expressions (and/or/not/null over any "
+    level_text = ("Twenty-five theorems proved in Coq for ALL compile-time minima, thresholds, filter expressions (and/or/not/null over any "
                   "number of threshold filters, incl. the not<not<F>> specialisation), severities, tags, item lists and sequence "
                   "sizes, over a Gallina model that follows stream.hpp/logger.hpp statement by statement (smart_stream's two "
                   "unique_ptrs, move construction along the << chain, destruction order of the temporaries, null_stream): the "
@@ -17,7 +17,10 @@ class C05(LogCheck):
                   "logical streams; records arrive in program order; the filter combinators are the boolean connectives; runtime "
                   "thresholds are keyed by (record type, filter index): configuring one record type's filter changes no statement, "
                   "stream or getter of a logger over another record type; a nested sequence sink delivers exactly like the flat "
-                  "sequence of its leaves (same text to every leaf, declaration order). "
+                  "sequence of its leaves (same text to every leaf, declaration order); the context a statement is executed in "
+                  "(straight-line, destructor during stack unwinding, catch handler, destructor on normal exit) and the named-local "
+                  "form change nothing; the message is the concatenation of everything streamed up to an item that makes the "
+                  "std::stringstream fail (modelled as the code behaves). "
                   "Tie: severity order, both >= comparisons and the storage of the threshold (a static member of severity_filter<Record, N>) are re-read from /repo on every run (Gen/GenSeverity.v, Tie/Tie_C05.v), "
                   "and the extracted model is diffed against a generated C++ program built from the working tree at each of the six "
                   "minima (ASan/UBSan) on the complete space of single statements (thorough) / a deterministic grid (quick) plus "
@@ -33,7 +36,8 @@ class C05(LogCheck):
             "(open/put/close in 4 variables) and stream-type queries, for 12 logger types (filter shapes of depth <= 3 over two "
             "threshold filters and the null filter; sink trees with 1-4 leaves: flat and nested sequences whose leaves take the text by const reference, by value or "
             "by rvalue overload, the by-value/rvalue/nested member in first, middle and last position; two record types with different attribute sets "
-            "sharing the filter indices, one of them without a tag attribute), threshold getters, and cross-record programs that "
+            "sharing the filter indices, one of them without a tag attribute), statements executed in four contexts (incl. inside a destructor while an exception propagates), items that put "
+            "the stringstream into fail()/bad() before/between/after callables, threshold getters, and cross-record programs that "
             "set one record type's threshold after/before the other's and log on both with severities between the two. quick: every (minimum, logger, relevant threshold "
             "setting, severity, form) with rotating item shapes/tags + all 118 item shapes x forms x tags x severities x minima "
             "under two loggers (incl. all ordered pairs of the 8 callable shapes) + every callable shape at every grid cell + random programs and statement sequences from VERIF_SEED; thorough: the complete single-statement "
